@@ -315,3 +315,14 @@ def c12(r):
     r.exhaustive = True
     r.extra['bounds'] = 'all ordered operator pairs (parent, child, side) of 6 arithmetic, 6 relational, 3 logical operators + unary shapes with minimal parentheses; 150 statement-level programs; 55 literal/statement forms (relation only)'
     r.conform(scs, workers=8)
+
+
+@prop('C13')
+def c13(r):
+    r.assumptions += ['carriage returns are removed by the readers (built-in and the harness fragment reader alike)',
+                      'the reference delivery is the built-in string reader (line by line)']
+    r.mc('BlocLexer', 'MC_C13.cfg', 'scanning per delivered unit = scanning the whole text, for all texts and all fragmentations, when units are whole lines; fails for arbitrary fragments')
+    scs = r.gen('Gen_C13', 'Gen_C13.cfg', timeout=3000)
+    r.exhaustive = True
+    r.extra['bounds'] = 'all sequences of <= 3 lexemes from 47 lexeme classes x every single split + sizes 1,2,3,5; 5 seed programs x pads 985..1030 x LF/CRLF x fragment sizes 1,2,7,64,1000'
+    r.conform(scs, workers=16)
